@@ -488,6 +488,12 @@ def named_config(name, tables, rng, text=None):
         return None, []
     if name == "exceptions":
         return exceptions_config(tables, rng, text)
+    if name.startswith("flip1/"):
+        # ONE yes / no option of one rule flipped away from its default and given as a boolean, everything else default
+        _, rid, opt = name.split("/", 2)
+        row = next(r for r in tables["rules"] if r["id"] == rid)
+        dv = row["defaults"].get(opt)
+        return None, [{"rule": {rid: {opt: not (dv == "yes" or dv is True)}}}]
     if name == "flip_yesno_bool":
         # every yes / no option flipped away from its default and written the way an unquoted YAML yes / no arrives:
         # as a boolean
